@@ -4,6 +4,7 @@
 // Case format:  census            followed by one episode per line:
 //   <kind> <a> <b> <c> <d>        (integer knobs; meaning per kind, see run_episode)
 #include <rapidcheck.h>
+#include <fcntl.h>
 #include "../../vlib/vlib.h"
 #include "../../vlib/valloc.h"
 #include "../../vlib/vipc.h"
@@ -322,7 +323,18 @@ Outcome run_case_inner(const Case &c) {
   auto fail = [&](const string &k, const string &m) { if (o.verdict.empty()) { o.verdict = m; o.klass = k; } };
   size_t idx = 0;
   for (auto &e : c.eps) {
+    // one episode in five runs while descriptor 0 is free (a daemon that closed its stdin): the lowest free descriptor - 0 - is what the
+    // library's socket / shm_open / fopen / opendir calls then receive.  It is an ordinary descriptor and has to be released like any other.
+    bool low_fd = (e.a + e.b + e.c + e.d) % 5 == 0 && (e.kind == "tcp" || e.kind == "udp" || e.kind == "shm" || e.kind == "shmbuf" || e.kind == "ini" || e.kind == "dir" || e.kind == "sem");
+    int saved0 = -1;
+    if (low_fd) { saved0 = fcntl(0, F_DUPFD_CLOEXEC, 100); if (saved0 >= 0) close(0); else low_fd = false; }
     run_episode(x, e);
+    if (low_fd) {
+      bool still_open = fcntl(0, F_GETFD) != -1;
+      dup2(saved0, 0); close(saved0);
+      x.classes.insert("descriptor_0_free_during_episode");
+      if (still_open) { fail("fd:" + e.kind, "episode " + std::to_string(idx) + " (" + e.kind + ") ran while descriptor 0 was free: descriptor 0 is still open afterwards (obtained by the library and never closed)"); break; }
+    }
     // settle (detached threads)
     for (int i = 0; i < 5000 && va::live_count() != live0; i++) { struct timespec ts = {0, 1000000}; nanosleep(&ts, NULL); }
     long dl = (long)va::live_count() - (long)live0;
